@@ -291,6 +291,26 @@ def check_bm_kinds(ctx):
     ctx.expect(paths, ret=1)
 
 
+def check_refused_exc(ctx):
+    from specs.C19 import install_exc, conc
+    install_exc(ctx.eng)
+    base = ctx.sandbox_base(32)
+    paths = ctx.run("k_app_pointer_refused", [base])
+    for q in paths:
+        if q.status != "ret":
+            ctx.fail(q, "ended %s %s" % (q.status, q.info))
+            continue
+        lg = q.user["log"]
+        e7 = [e for e in lg if e[0] == 7][0]
+        e8 = [e for e in lg if e[0] == 8][0]
+        e9 = [e for e in lg if e[0] == 9][0]
+        v = lambda x: x if not isinstance(x, int) else BV(x, 64)
+        ctx.require(q, z3.And(v(e7[1]) == 1, v(e8[1]) != 0, v(e8[2]) == v(e8[3]), v(e9[1]) == 0),
+                    "a refused registration raises and leaves no token behind: afterwards only the live owner's token resolves")
+    ctx.only(paths, "ret")
+    ctx.expect(paths, ret=1)
+
+
 def check_apm_max(ctx, cursor):
     """limit = the largest value of the token type (255): the table is full except for at most one symbolic slot;
     the cursor is a given concrete position (0 = wrapped after issuing token 255)"""
@@ -334,6 +354,8 @@ def jobs(tier, seed):
                                                             kw=dict(depth=depth, first=f), unwind=400)], max_paths=200000))
     out.append(Job("C15_owner_two", osrc, [dict(name="owners of two sandboxes with equal tokens", fn=check_two_sandboxes, unwind=400)], native=False))
     out.append(Job("C15_b32", '#include "C15_b32.inc"\n', [dict(name="32-bit token table on a 4 GiB sandbox", fn=check_b32, unwind=400)], native=False))
+    out.append(Job("C15_refused_exc", '#include "C15_exc.inc"\n', [dict(name="refused app-pointer registration leaves no token (exceptions)", fn=check_refused_exc, unwind=400)],
+                   native=False, flags=["-D_GLIBCXX_EXTERN_TEMPLATE=0"]))
     out.append(Job("C15_bm_kinds", '#include "C15_bm.inc"\n', [dict(name="BM app pointers to int and to function-pointer objects", fn=check_bm_kinds, unwind=400)], native=False))
     out.append(Job("C15_owner_stale", osrc, [dict(name="stale token lookup", fn=check_stale, unwind=400)]))
     return out
